@@ -144,3 +144,58 @@ Theorem model_outputs_pass_spec :
                c_readys := [ready]; c_outs := [fst m]; c_qual := snd m |} = true.
 Proof. exact Proofs.C10.model_outputs_pass_spec. Qed.
 Print Assumptions model_outputs_pass_spec.
+
+(* ---- selection HISTORIES on one loop object per member ----
+   [run_history l h]: the loop object [l] (seat list, threshold / quorum, attempt seed set by the
+   constructor; attemptCounter) goes through the steps of [h]; each step carries the
+   map-iteration order of that call, the attempt number the loop sets and the ready list. *)
+
+(* history independence: whatever the object went through, the constructor's fields are what
+   they were and the answers are the pure selection function of (ready list, attempt, seed)
+   mapped over the steps *)
+Theorem run_history_is_map :
+  forall (rngT : Type) (mkrng : Z -> rngT) (shuffle : forall A : Type, rngT -> list A -> list A)
+         (l : loop) (h : list hstep),
+    same_wallet (fst (run_history rngT mkrng shuffle l h)) l /\
+    snd (run_history rngT mkrng shuffle l h) = map (pure_sel rngT mkrng shuffle l) h.
+Proof. exact Proofs.C10.run_history_is_map. Qed.
+Print Assumptions run_history_is_map.
+
+(* every member derives the same participants, whatever its own past: two loop objects of the
+   same wallet (same seats, count, seed), each with ITS OWN history (one may have skipped early
+   attempts, seen other ready sets, other attempt numbers), select the same lists wherever they
+   select for the same attempt number on the same ready SET *)
+Theorem members_agree_whatever_their_histories :
+  forall (rngT : Type) (mkrng : Z -> rngT) (shuffle : forall A : Type, rngT -> list A -> list A)
+         (l l' : loop) (h h' : list hstep) (i j : nat)
+         (iter iter' : list N -> list N) (att : N) (ready ready' : list N),
+    same_wallet l l' ->
+    (forall x, Permutation (iter x) x) -> (forall x, Permutation (iter' x) x) ->
+    nth_error h i = Some (iter, att, ready) ->
+    nth_error h' j = Some (iter', att, ready') ->
+    Permutation ready ready' ->
+    exists o,
+      nth_error (snd (run_history rngT mkrng shuffle l h)) i = Some o /\
+      nth_error (snd (run_history rngT mkrng shuffle l' h')) j = Some o.
+Proof. exact Proofs.C10.members_agree_whatever_their_histories. Qed.
+Print Assumptions members_agree_whatever_their_histories.
+
+(* the executable history property of the correspondence check is sound: at every step whose
+   ready list is a set of group members, all members present returned ONE outcome and it
+   satisfies the per-output property w.r.t. the ready set of THAT step (spec_out_sound above) *)
+Theorem hspec_ok_sound :
+  forall h, hspec_ok h = true ->
+  forall j s, nth_error (h_steps h) j = Some s -> ready_wf (h_ops h) (hs_ready s) = true ->
+    exists o, In o (outs_at (h_members h) j) /\
+              (forall o', In o' (outs_at (h_members h) j) -> o' = o) /\
+              spec_out (step_case h s) o = true.
+Proof. exact Proofs.C10.hspec_ok_sound. Qed.
+Print Assumptions hspec_ok_sound.
+
+(* ... and holds of every history of the concrete model, for any members joining at any steps *)
+Theorem model_histories_pass_spec :
+  forall k ops count seed steps ms,
+    existsb (fun m => Nat.eqb (snd m) 0) ms = true ->
+    hspec_ok (C10.Concrete.model_hcase k ops count seed steps ms) = true.
+Proof. exact Proofs.C10.model_histories_pass_spec. Qed.
+Print Assumptions model_histories_pass_spec.
